@@ -11,6 +11,7 @@ import (
 	"k8s.io/apimachinery/pkg/labels"
 
 	proxyv1alpha1 "github.com/kubewharf/kubegateway/pkg/apis/proxy/v1alpha1"
+	gatewayfake "github.com/kubewharf/kubegateway/pkg/client/kubernetes/fake"
 	_interface "github.com/kubewharf/kubegateway/pkg/ratelimiter/store/interface"
 	"github.com/kubewharf/kubegateway/pkg/ratelimiter/store/k8s"
 	"github.com/kubewharf/kubegateway/pkg/ratelimiter/util"
@@ -180,6 +181,17 @@ func genSequence(g *vkit.Rand, mode string) sequence {
 	}
 	if g.Chance(stopP) {
 		s.Ops = append(s.Ops, op{Kind: "stop"})
+	}
+	// a third of the sequences: the server that will take this shard over gains the OTHER shard first, at some point while
+	// the store under test is still running and acknowledging; it gains this shard right after the end of the history,
+	// in the same process, through the same client
+	if g.Chance(0.35) {
+		last := len(s.Ops)
+		if s.Ops[last-1].Kind == "stop" {
+			last--
+		}
+		at := g.Range(1, last)
+		s.Ops = append(s.Ops[:at], append([]op{{Kind: "new-server-gains-other-shard"}}, s.Ops[at:]...)...)
 	}
 	// a third of the sequences: one save / delete / delete-upstream runs WHILE a flush, tick or stop is in progress
 	if g.Chance(0.34) {
@@ -417,6 +429,7 @@ type runResult struct {
 	Allowed    map[string]string
 	Sleeps     time.Duration
 	RanBetween bool   // the concurrent operation ran to completion between two API calls of a flush (the store did not make it wait)
+	NewServerFirst bool // the server that loads this shard at the end had gained the other shard before, during the history
 	Retried    bool   // a failed stop / flush was called again by the caller
 	Harness    string // set when the harness itself could not complete the run (=> inconclusive)
 }
@@ -546,6 +559,39 @@ func execute(seq sequence, faults []fault, emulateNilDeref bool) runResult {
 		out opOutcome
 		err error
 		pi  *panicInfo
+	}
+
+	// checkLoad: a new store for shard sh over client loads; it must hold exactly what the API holds for that shard now.
+	var newServer *gatewayfake.Clientset
+	checkLoad := func(client *gatewayfake.Clientset, sh int, who string, snap map[string]stored) {
+		ns, _ := k8s.VerifNewK8sCacheStore(client, period, sh, shardCount)
+		out, err, pi := callOp(ns.Load)
+		if out != acked {
+			add("load-fails", fmt.Sprintf("%s: Load() without any fault: %v %v", who, err, pi))
+			return
+		}
+		got := map[string]val{}
+		for _, c := range listAll(ns) {
+			cur = c.name
+			got[c.name] = c.v
+			st, inAPI := snap[c.name]
+			switch {
+			case util.GetShardID(c.upstream, shardCount) != sh:
+				add("load-foreign-shard", fmt.Sprintf("%s (shard %d) loaded %s of upstream %s (shard %d)", who, sh, c.name, c.upstream, util.GetShardID(c.upstream, shardCount)))
+			case !inAPI:
+				add("load-not-persisted", fmt.Sprintf("%s loaded %s=%s which the API does not hold", who, c.name, c.v))
+			case st.Val != c.v:
+				add("load-value-differs", fmt.Sprintf("%s loaded %s=%s, the API holds %s", who, c.name, c.v, st.Val))
+			}
+		}
+		for n, st := range snap {
+			cur = n
+			if util.GetShardID(st.Upstream, shardCount) == sh {
+				if _, ok := got[n]; !ok {
+					add("load-misses-persisted", fmt.Sprintf("%s did not load %s=%s which the API holds for its shard", who, n, st.Val))
+				}
+			}
+		}
 	}
 
 	reportedAtAck := map[string]bool{} // conditions whose loss was already reported at the acknowledgement
@@ -701,6 +747,14 @@ func execute(seq sequence, faults []fault, emulateNilDeref bool) runResult {
 			m.allowed[o.Name] = valset{val{o.Ver, o.Ver}: true}
 			continue
 		}
+		if o.Kind == "new-server-gains-other-shard" {
+			newServer, _ = newClient(a)
+			res.NewServerFirst = true
+			n0 := len(res.Findings)
+			checkLoad(newServer, 1-seq.Shard, "the next server (gaining the other shard while this store is still running)", a.snapshot())
+			res.Log = append(res.Log, fmt.Sprintf("%s -> %d finding(s)", o.Kind, len(res.Findings)-n0))
+			continue
+		}
 		out, err, pi = perform(o)
 		if inj.calls >= at && before < at && at > 0 && res.HitOp == "" {
 			res.HitOp = o.Kind
@@ -781,39 +835,18 @@ func execute(seq sequence, faults []fault, emulateNilDeref bool) runResult {
 
 	// ---- the next holders load ----
 	for sh := 0; sh < shardCount; sh++ {
-		csN, _ := newClient(a)
-		ns, _ := k8s.VerifNewK8sCacheStore(csN, period, sh, shardCount)
 		who := "new holder of the same shard"
 		if sh != seq.Shard {
 			who = "holder of the other shard"
 		}
-		out, err, pi := callOp(ns.Load)
-		if out != acked {
-			add("load-fails", fmt.Sprintf("%s: Load() without any fault: %v %v", who, err, pi))
-			continue
+		csN, _ := newClient(a)
+		if sh == seq.Shard && newServer != nil {
+			// the same process that gained the other shard earlier, through the same client, right after the old holder
+			// is gone (no timing involved: it simply follows immediately)
+			csN = newServer
+			who = "the next server (gaining this shard right after the old holder is gone; it gained the other shard earlier)"
 		}
-		got := map[string]val{}
-		for _, c := range listAll(ns) {
-			cur = c.name
-			got[c.name] = c.v
-			st, inAPI := snap[c.name]
-			switch {
-			case util.GetShardID(c.upstream, shardCount) != sh:
-				add("load-foreign-shard", fmt.Sprintf("%s (shard %d) loaded %s of upstream %s (shard %d)", who, sh, c.name, c.upstream, util.GetShardID(c.upstream, shardCount)))
-			case !inAPI:
-				add("load-not-persisted", fmt.Sprintf("%s loaded %s=%s which the API does not hold", who, c.name, c.v))
-			case st.Val != c.v:
-				add("load-value-differs", fmt.Sprintf("%s loaded %s=%s, the API holds %s", who, c.name, c.v, st.Val))
-			}
-		}
-		for n, st := range snap {
-			cur = n
-			if util.GetShardID(st.Upstream, shardCount) == sh {
-				if _, ok := got[n]; !ok {
-					add("load-misses-persisted", fmt.Sprintf("%s did not load %s=%s which the API holds for its shard", who, n, st.Val))
-				}
-			}
-		}
+		checkLoad(csN, sh, who, snap)
 	}
 	return res
 }
